@@ -240,6 +240,9 @@ def handleV (f : File) (j0 : Json) : File × Json :=
       | some false => (f, err .keyError)
       | none => (f, bad "C13: via")
   match (jArr j).toList with
+  -- the caller supplies the id (`oid=`): stored as given when `util.is_uuid` accepts it; entities are addressed by
+  -- creation counter here, so the text plays no role at this level
+  | [Json.str "create_section", p, n, t, Json.str _oid] => handle f (Json.arr #[Json.str "create_section", p, n, t])
   | [Json.str "find", root, filt, limit, via] => thru root via (Json.arr #[Json.str "find", root, filt, limit])
   | [Json.str "referring", k, what, via] => thru k via (Json.arr #[Json.str "referring", k, what])
   | [Json.str "find_related", k, via, filt] =>
